@@ -1,4 +1,5 @@
 import NettyVerif.Model.Frame
+import NettyVerif.Model.VarLen
 /-! Driver part for C04 and C08 (frame codecs): model (chunk level) vs implementation = `diff`;
     specification (repaired decoders on the flattened stream; encoder header = body length under the
     decoder's reading) vs implementation = `specviol`. -/
@@ -29,6 +30,7 @@ def parseFin : String → Option RErr
 inductive Spec where
   | codec (c : Codec)
   | prep (c : PrepCfg)
+  | varlen (max : Int)          -- VariableLengthCodec: no framing, one message per transport read of at most max bytes
 
 def parseSpec (s : String) : Option Spec :=
   match s.splitOn ":" with
@@ -41,6 +43,7 @@ def parseSpec (s : String) : Option Spec :=
   | ["vi", max] => do pure (.codec (.varint (← max.toInt?)))
   | ["dl", d, max, strip] => do pure (.codec (.delim (← unhex d) (← max.toInt?) (strip == "1")))
   | ["fx", n] => do pure (.codec (.fixed (← n.toInt?)))
+  | ["vl", m] => do pure (.varlen (← m.toInt?))
   | _ => none
 
 def validSpec : Spec → Bool
@@ -49,6 +52,7 @@ def validSpec : Spec → Bool
   | .codec (.delim d m _) => m > 0 && !d.isEmpty
   | .codec (.fixed n) => n > 0
   | .prep c => c.fieldLen == 1 || c.fieldLen == 2 || c.fieldLen == 4 || c.fieldLen == 8
+  | .varlen m => m > 0
 
 def encode : Spec → Bytes → Option Bytes
   | .codec (.lf c), b => encodePrep c.prep b
@@ -56,6 +60,7 @@ def encode : Spec → Bytes → Option Bytes
   | .codec (.delim d _ _), b => some (encodeDelim d b)
   | .codec (.fixed _), b => some b
   | .prep c, b => encodePrep c b
+  | .varlen _, b => some b
 
 /-- encoder soundness, stated on the implementation's own output: the header must read back, under
     the decoder's reading of the field, as the length the configuration defines -/
@@ -117,6 +122,21 @@ def handle : List String → String
     | _, _ => "bad-op"
   | "dec" :: spec :: fin :: chunks :: outcome =>
     match parseSpec spec, parseFin fin, (if chunks == "-" then some [] else (chunks.splitOn ",").mapM unhex) with
+    | some (.varlen mx), some _, some cs =>
+      -- every transport read of at most max bytes is a message; the final error raises
+      let impl := " ".intercalate outcome
+      let msgs := NettyVerif.VarLen.run mx.toNat (total cs + cs.length + 1) cs
+      let rec render (ms : List Bytes) (pos : Nat) : String :=
+        match ms with
+        | [] => s!"raise@{pos}"
+        | m :: r => s!"m={hex m}@{pos + m.length} " ++ render r (pos + m.length)
+      let model := render msgs 0
+      let tooBig := (impl.splitOn " ").any (fun t => t.startsWith "m=" && (((t.drop 2).toString.splitOn "@").head!.length / 2 > mx.toNat) && !t.startsWith "m=-")
+      if impl.endsWith "loop" then s!"specviol decoder-does-not-terminate impl={impl.take 120}"
+      else if (impl.splitOn "fault@").length > 1 then s!"specviol runtime-fault-in-decoder impl={impl.take 120}"
+      else if tooBig then s!"specviol a message larger than the configured maximum ({mx}) was delivered: impl={impl.take 160}"
+      else if model != impl then s!"specviol spec={model.take 160} impl={impl.take 160}"
+      else "ok"
     | some (.codec c), some f, some cs =>
       let tot := total cs
       let impl := " ".intercalate outcome
